@@ -123,7 +123,7 @@ def canon_value(v):
 
 # ====================================================================== C37
 
-BASE_ROW = {"p": 1, "q": 2, "c": 3, "vv": 4, "w": 5, "t": "x", "z": 6, "s": {1, 2}, "l": [1, 2], "m": {1: 1, 2: 2}}
+BASE_ROW = {"p": 1, "q": 2, "c": 3, "vv": 4, "w": 5, "t": "x", "Seq": 7, "order": 8, "z": 6, "s": {1, 2}, "l": [1, 2], "m": {1: 1, 2: 2}}
 COUNTER_ROW = {"p": 1, "c": 3, "n": 10}
 
 
@@ -139,7 +139,8 @@ class StmtEnv(Env):
         c = self.columns
         self.S = self.model("S", "st", {
             "p": c.Integer(partition_key=True), "q": c.Integer(partition_key=True), "c": c.Integer(primary_key=True),
-            "v": c.Integer(index=True, db_field="vv"), "w": c.Integer(), "t": c.Text(), "z": c.Integer(static=True),
+            "v": c.Integer(index=True, db_field="vv"), "w": c.Integer(), "t": c.Text(),
+            "x": c.Integer(db_field="Seq"), "y": c.Integer(db_field="order"), "z": c.Integer(static=True),
             "s": c.Set(c.Integer), "l": c.List(c.Integer), "m": c.Map(c.Integer, c.Integer)})
         self.SC = self.model("SC", "sc", {
             "p": c.Integer(partition_key=True), "c": c.Integer(primary_key=True), "n": c.Counter()})
@@ -190,12 +191,18 @@ class StmtEnv(Env):
         S = self.S
         if kind == "select":
             qs = S.objects
+            kwargs = {}
             for f in case["filters"]:
                 if f["shape"] == "token":
                     val = self.functions.Token(*[pyval(x) for x in f["vals"]])
                 else:
                     val = pyval(f["vals"][0])
-                qs = qs.filter(**{f["kw"]: val})
+                if case.get("single"):
+                    kwargs[f["kw"]] = val               # keyword order = filter order
+                else:
+                    qs = qs.filter(**{f["kw"]: val})
+            if kwargs:
+                qs = qs.filter(**kwargs)
             o = case["opt"]
             if o["order"] != "none":
                 qs = qs.order_by(o["order"])
@@ -466,9 +473,37 @@ def _show_params(params):
 
 # ====================================================================== C35
 
-def _row_tables():
+# Element types of the collection columns of model R (MapperRow.tla ElemTypes): timestamps - their database form (epoch
+# milliseconds) differs from their Python form (datetime), so every place where cqlengine must convert shows.
+ELEMS = {"s": "timestamp", "l": "timestamp", "mk": "int", "mv": "timestamp"}
+# abstract element i of the specification <-> Python value (millisecond precision: exact round trip)
+ELEM_VALUES = {1: datetime.datetime(2001, 1, 1, 0, 0, 0), 2: datetime.datetime(2002, 2, 2, 3, 4, 5, 678000)}
+
+
+def _ms(d):
+    delta = d - datetime.datetime(1970, 1, 1)
+    return (delta.days * 86400 + delta.seconds) * 1000 + delta.microseconds // 1000
+
+
+_ABSTRACT = dict([(v, k) for k, v in ELEM_VALUES.items()] + [(_ms(v), k) for k, v in ELEM_VALUES.items()])
+
+
+def elem(i):
+    return ELEM_VALUES[i]
+
+
+def abstract(x):
+    """Python datetime / stored milliseconds -> the specification's element."""
+    try:
+        return _ABSTRACT[x]
+    except (KeyError, TypeError):
+        return "foreign:%r" % (x,)
+
+
+def _row_tables(plain_elements=False):
     r = CI.Table("%s.r" % KS, ["k"], ["ck"], {"k": "int", "ck": "int", "aa": "int", "b": "int", "st": "int",
-                                             "s": "set", "l": "list", "m": "map"}, static=["st"])
+                                             "s": "set", "l": "list", "m": "map"}, static=["st"],
+                 elems=None if plain_elements else {"s": ELEMS["s"], "l": ELEMS["l"], "m": (ELEMS["mk"], ELEMS["mv"])})
     rc = CI.Table("%s.rc" % KS, ["k"], ["ck"], {"k": "int", "ck": "int", "n": "counter"})
     return r, rc
 
@@ -490,17 +525,22 @@ class RowHarness(Env):
 
     FIELDS = ("a", "b", "st", "s", "l", "m")
 
-    def __init__(self, mode):
+    def __init__(self, mode, plain_elements=False):
+        """plain_elements: collections of Integer whose elements are the specification's numbers themselves (used by the
+        reproductions in /verif/findings); default: the specification's ElemTypes (timestamps)."""
         super(RowHarness, self).__init__()
         self.mode = mode
+        self.elem = (lambda i: i) if plain_elements else elem
+        self.abstract = (lambda x: x) if plain_elements else abstract
         c = self.columns
         self.R = self.model("R", "r", {
             "k": c.Integer(partition_key=True), "ck": c.Integer(primary_key=True),
             "a": c.Integer(db_field="aa"), "b": c.Integer(), "st": c.Integer(static=True),
-            "s": c.Set(c.Integer), "l": c.List(c.Integer), "m": c.Map(c.Integer, c.Integer)})
+            "s": c.Set(c.Integer if plain_elements else c.DateTime), "l": c.List(c.Integer if plain_elements else c.DateTime),
+            "m": c.Map(c.Integer, c.Integer if plain_elements else c.DateTime)})
         self.RC = self.model("RC", "rc", {
             "k": c.Integer(partition_key=True), "ck": c.Integer(primary_key=True), "n": c.Counter()})
-        self.tr, self.trc = _row_tables()
+        self.tr, self.trc = _row_tables(plain_elements)
         self.interp = CI.Interp([self.tr, self.trc])
         self.session.handler = self.interp.execute
         self.inst = None
@@ -513,34 +553,32 @@ class RowHarness(Env):
 
     # ---- spec values <-> Python values
 
-    @staticmethod
-    def py_field(f, x, none=False):
+    def py_field(self, f, x, none=False):
         """Spec value of field f (0 / {} / <<>> / <<0,0>> = null) -> what the application passes."""
         if f in ("a", "b", "st"):
             return None if x == 0 else x
         if f == "s":
-            return None if none else set(x)
+            return None if none else set(self.elem(i) for i in x)
         if f == "l":
-            return None if none else list(x)
+            return None if none else [self.elem(i) for i in x]
         if f == "m":
-            return None if none else {i + 1: v for i, v in enumerate(x) if v != 0}
+            return None if none else {i + 1: self.elem(v) for i, v in enumerate(x) if v != 0}
         raise KeyError(f)
 
-    @staticmethod
-    def spec_field(f, v):
+    def spec_field(self, f, v):
         """A Python attribute / cell value -> the spec's representation."""
         if f in ("a", "b", "st"):
             return 0 if v is None else v
         if f == "s":
-            return frozenset(v or ())
+            return frozenset(self.abstract(x) for x in (v or ()))
         if f == "l":
-            return tuple(v or ())
+            return tuple(self.abstract(x) for x in (v or ()))
         if f == "m":
             d = dict(v or {})
             extra = set(d) - {1, 2}
             if extra:
-                return ("foreign-keys", tuple(sorted(d.items())))
-            return (d.get(1, 0) or 0, d.get(2, 0) or 0)
+                return ("foreign-keys", repr(sorted(d.items(), key=repr)))
+            return tuple(self.abstract(d[k]) if d.get(k) is not None else 0 for k in (1, 2))
         raise KeyError(f)
 
     # ---- operations
@@ -553,12 +591,14 @@ class RowHarness(Env):
                 kw[name] = None
             elif name in ("a", "b", "st"):
                 kw[name] = x
-            elif name in ("s", "s__add", "s__remove", "m__remove"):
+            elif name == "m__remove":
                 kw[name] = set(x)
+            elif name in ("s", "s__add", "s__remove"):
+                kw[name] = set(self.elem(i) for i in x)
             elif name in ("l", "l__append", "l__prepend"):
-                kw[name] = list(x)
+                kw[name] = [self.elem(i) for i in x]
             elif name in ("m", "m__update"):
-                kw[name] = {i + 1: v for i, v in enumerate(x) if v != 0}
+                kw[name] = {i + 1: self.elem(v) for i, v in enumerate(x) if v != 0}
             else:
                 raise tlc.MachineryError("unknown update keyword %s" % name)
         return kw
@@ -574,17 +614,17 @@ class RowHarness(Env):
                 setattr(inst, f, {"s": set(), "l": [], "m": {}}[f])
             cur = getattr(inst, f)
             if op == "add":
-                cur.add(x)
+                cur.add(self.elem(x))
             elif op == "discard":
-                cur.remove(x)
+                cur.remove(self.elem(x))
             elif op == "append":
-                cur.append(x)
+                cur.append(self.elem(x))
             elif op == "prepend":
-                cur.insert(0, x)
+                cur.insert(0, self.elem(x))
             elif op == "poplast":
                 cur.pop()
             elif op == "put":
-                cur[x[0]] = x[1]
+                cur[x[0]] = self.elem(x[1])
             elif op == "delkey":
                 del cur[x]
             else:
